@@ -927,7 +927,9 @@ class AstToCfg(ast.NodeVisitor):
       self.visit(stmt)
     # The orelse is an optional continuation of the body.
     if node.orelse:
-      block_representative = node.orelse[0]
+      # Not node.orelse[0]: if that is itself an if statement, it opens a
+      # conditional section keyed by the same node.
+      block_representative = (node, 'orelse')
       self.builder.enter_cond_section(block_representative)
       self.builder.new_cond_branch(block_representative)
       for stmt in node.orelse:
